@@ -15,7 +15,9 @@ CLAIMED = {
              'and consistency of the code-shaped state in every reachable state; every Finalize transition is replayed on the '
              'real Multipatch and compared at partition level; detect_interfaces and a conforming-decomposition system '
              'comparison are bound to the same complexes. Exhaustive within the stated bounds, which is what an order/'
-             'history property needs.',
+             'history property needs. The 3x2 lattice of degree 2 (an interface between two interior cross points, with interior '
+             'interface dofs) is explored by 1000 random walks of TLC (-simulate) in the quick tier and breadth-first over all '
+             '13700 join histories in the thorough tier.',
         note='Bounded complexes (lattices <= 6 patches 2-D / <= 4 patches 3-D, vertex rings, closed bands where two patches share two faces; degree <= 2, one span per patch); finalize and numbering queries also BETWEEN the joins; only reflections as '
              'orientation changes; assembled-system equality is numeric (1e-10). The pre-fix join loop is kept as negative control.',
         technique='TLA+ state machine (Multipatch.tla) + TLC exhaustive exploration + replay of every terminal behaviour into the real code',
